@@ -680,9 +680,13 @@ req0_ctx_cancel_send(nni_aio *aio, void *arg, nng_err rv)
 
 	nni_mtx_lock(&s->mtx);
 	if (ctx->send_aio == aio) {
-		// There should not be a pending reply, because we canceled
-		// it while we were waiting.
-		NNI_ASSERT(ctx->recv_aio == NULL);
+		// A receive may already have been posted (some users start
+		// receiving before the send completes); the request is being
+		// aborted, so that receive cannot complete any more.
+		if (ctx->recv_aio != NULL) {
+			nni_aio_finish_error(ctx->recv_aio, NNG_ECANCELED);
+			ctx->recv_aio = NULL;
+		}
 		ctx->send_aio = NULL;
 		// Restore the message back to the aio.
 		nni_aio_set_msg(aio, ctx->req_msg);
